@@ -53,9 +53,23 @@ pub fn shards(tier: &str) -> Vec<String> {
         for o in ["01234", "43210", "20413", "31402"] {
             v.push(format!("{k}:sparse5:{o}:t1"));
         }
+        // the same sparse live sets through the concurrent variant (4 real workers)
+        for (i, o) in p4.iter().enumerate() {
+            if tier == "thorough" || i % 6 == 1 {
+                v.push(format!("{k}:csparse4:{}:t4", model::order_str(o)));
+            }
+        }
+        // single adjacent swaps through the public level_down (dense and sparse live sets, every level)
+        for (i, o) in p4.iter().enumerate() {
+            if tier == "thorough" || i % 3 == 0 {
+                v.push(format!("{k}:leveldown4:{}:t1", model::order_str(o)));
+            }
+        }
         // the concurrent variant under the cooperative scheduler: all schedules with <= 2 preemptions
-        // (part name = sched<request index>: 0 reverse, 1 rotate, 2 odd positions first)
-        for r in 0..3 {
+        // (part name = sched<request index>: 0 reverse, 1 rotate, 2 odd positions first, 3 exchange the two
+        //  bottom-most variables, 4 exchange the two top-most; 5..9 the same with a live set that leaves
+        //  the level of the second variable empty)
+        for r in (0..10).filter(|r| tier == "thorough" || ![6, 7, 9].contains(r)) {
             for o in ["0123", "3210", "1302"] {
                 v.push(format!("{k}:sched{r}:{o}:t2"));
                 if tier == "thorough" {
@@ -186,6 +200,12 @@ fn reorder_case<K: BoolKind>(ctx: &mut Ctx, n: u32, src: &[u32], req: &[u32], ta
             ctx.count("nontrivial", 1);
         }
         let (mref, fns) = functions_of::<K>(n, &src, 1024, tc, &tabs);
+        // a model-count cache that is filled before the reordering and used again afterwards
+        let mut count_cache: oxidd::util::SatCountCache<oxidd::util::num::Saturating<u64>, std::hash::BuildHasherDefault<oxidd::util::FxHasher>> = oxidd::util::SatCountCache::default();
+        count_cache.cache_all = true;
+        for f in fns.iter() {
+            let _ = f.sat_count(n, &mut count_cache);
+        }
         K::set_order(&mref, &req);
         let got = current_order::<K>(&mref);
         let case = json!({"kind": K::NAME, "n": n, "source_order": model::order_str(&src), "request": model::order_str(&req), "threads": tc.threads, "live_functions": tabs.len(), "resulting_order": model::order_str(&got)});
@@ -221,10 +241,25 @@ fn reorder_case<K: BoolKind>(ctx: &mut Ctx, n: u32, src: &[u32], req: &[u32], ta
                 let j = (i * 7 + 3) % k;
                 let r = fns[i].xor(&fns[j]).and_then(|x| x.or(&fns[(j + 1) % k]));
                 let exp = (tabs[i] ^ tabs[j]) | tabs[(j + 1) % k];
-                match r.map(|h| K::table(&h)) {
+                match r.as_ref().map(|h| K::table(h)) {
                     Ok(Ok(x)) if x == exp => {}
                     other => v(ctx, "op_after_reorder", format!("({:#x} xor {:#x}) or {:#x} = {other:x?}, expected {exp:#x}", tabs[i], tabs[j], tabs[(j + 1) % k])),
                 }
+                // new nodes (possibly in slots freed by the reordering) counted through the old cache
+                if let Ok(h) = &r {
+                    let c = h.sat_count(n, &mut count_cache).0;
+                    if c != exp.count_ones() as u64 {
+                        v(ctx, "stale_count_cache", format!("sat_count of a function built after the reordering ({exp:#x}) through a cache that was filled before it = {c}, the function has {} models", exp.count_ones()));
+                    }
+                }
+            }
+        }
+        // the cache from before the reordering must not serve counts of nodes that no longer exist
+        for (f, &t) in fns.iter().zip(&tabs) {
+            let c = f.sat_count(n, &mut count_cache).0;
+            if c != t.count_ones() as u64 {
+                v(ctx, "stale_count_cache", format!("sat_count of {t:#x} through a cache that was filled before the reordering = {c}, the function has {} models", t.count_ones()));
+                break;
             }
         }
         // drop everything, gc: back to the initial node count
@@ -262,8 +297,8 @@ where
     if let Some(r) = part.strip_prefix("sched") {
         return sched_reorder::<K>(ctx, &src, r.parse().unwrap(), tc);
     }
-    crate::dd::force_concurrent_reorder(part == "conc4");
-    let part = if part == "conc4" { "n4" } else { part };
+    crate::dd::force_concurrent_reorder(part == "conc4" || part == "csparse4");
+    let part = if part == "conc4" { "n4" } else if part == "csparse4" { "sparse4" } else { part };
     match part {
         "n3" => {
             let tabs: Vec<Tab> = (0..256).collect();
@@ -340,8 +375,70 @@ where
                 }
             }
         }
+        "leveldown4" => {
+            let n = 4u32;
+            let xv: Vec<Tab> = (0..n).map(|v| model::var_tab(v, n)).collect();
+            let full = model::full(n);
+            let mut live_sets: Vec<Vec<Tab>> = vec![vec![xv[0] ^ xv[1] ^ xv[2] ^ xv[3], (xv[0] & xv[1]) | (xv[2] & xv[3]), (xv[0] | xv[2]) & !xv[3] & full, xv[1] & xv[3]]];
+            for i in 0..n as usize {
+                live_sets.push(vec![xv[i]]);
+                for j in (i + 1)..n as usize {
+                    live_sets.push(vec![xv[i] & xv[j]]);
+                    live_sets.push(vec![xv[i] ^ xv[j], (xv[i] | !xv[j]) & full]);
+                }
+                // three of the four variables: exactly one empty level
+                let others: Vec<Tab> = (0..n as usize).filter(|&j| j != i).map(|j| xv[j]).collect();
+                live_sets.push(vec![(others[0] & others[1]) | others[2], others[0] ^ others[2]]);
+            }
+            for ls in &live_sets {
+                for l in 0..n - 1 {
+                    level_down_case::<K>(ctx, n, &src, l, ls, tc);
+                }
+            }
+        }
         _ => panic!("bad part"),
     }
+}
+
+/// one call of the public `level_down` (inside `Manager::reorder`): the two levels are exchanged, every
+/// handle keeps its function, the store is well-formed (a node reports the level it is listed in)
+fn level_down_case<K: BoolKind>(ctx: &mut Ctx, n: u32, src: &[u32], level: u32, tabs: &[Tab], tc: ThreadCfg) {
+    let label = format!("src={} level_down({level}) live={:x?}", model::order_str(src), tabs);
+    let (src, tabs) = (src.to_vec(), tabs.to_vec());
+    ctx.group(&label, |ctx| {
+        ctx.count("evaluations", 1);
+        ctx.count("executions", 1);
+        ctx.count("transitions", 1);
+        ctx.count("nontrivial", 1);
+        let (mref, fns) = functions_of::<K>(n, &src, 1024, tc, &tabs);
+        K::level_down(&mref, level);
+        let got = current_order::<K>(&mref);
+        let mut want = src.clone();
+        want.swap(level as usize, level as usize + 1);
+        let case = json!({"kind": K::NAME, "n": n, "source_order": model::order_str(&src), "level_down": level, "live_functions": tabs, "resulting_order": model::order_str(&got)});
+        let mut v = |ctx: &mut Ctx, class: &str, msg: String| {
+            ctx.viol(attrs(&[("kind", K::NAME), ("op", "level_down"), ("class", class)]), case.clone(), &format!("{} level_down({level}) from {} with live set {tabs:x?}: {msg}", K::NAME, model::order_str(&src)));
+        };
+        if got != want {
+            v(ctx, "request_not_established", format!("resulting order {}, expected {}", model::order_str(&got), model::order_str(&want)));
+        }
+        let live: Vec<&K::F> = fns.iter().collect();
+        for (class, msg) in check_state::<K>(&mref, &live, &tabs, n, true) {
+            v(ctx, &class, msg);
+        }
+        ctx.distinct(crate::proto::fx(&[got.iter().fold(0u64, |a, &x| a * 8 + x as u64), level as u64, tabs.len() as u64]));
+        drop(live);
+        drop(fns);
+        let left = mref.with_manager_shared(|m| {
+            m.gc();
+            m.num_inner_nodes()
+        });
+        let init = if K::NAME == "zbdd" { n as usize } else { 0 };
+        if left != init {
+            v(ctx, "leak_after_reorder", format!("{left} inner nodes remain after dropping all handles and gc (initial: {init})"));
+        }
+        ctx.sample(|| case.clone());
+    });
 }
 
 /// (b) histories of depth <= d over {reorder to pi, and, xor, drop, gc}
@@ -443,7 +540,14 @@ where
     // a small live set with nodes on every level and sharing between the functions
     let parity = x.iter().fold(0, |a, &b| a ^ b);
     let pairs = x.chunks(2).fold(0, |a, c| a | c.iter().fold(full, |p, &q| p & q));
-    let tabs: Vec<Tab> = vec![parity, pairs, (x[0] | x[2]) & !x[n as usize - 1] & full, x[1] & x[n as usize - 1]];
+    let mut tabs: Vec<Tab> = vec![parity, pairs, (x[0] | x[2]) & !x[n as usize - 1] & full, x[1] & x[n as usize - 1]];
+    let sparse = which >= 5;
+    let which = which % 5;
+    if sparse {
+        // nothing depends on the variable at the second level of the source order: that level is empty
+        let e = src[1];
+        tabs = tabs.iter().map(|&t| model::cofactor(t, e, false, n)).collect();
+    }
     let mut reqs: Vec<Vec<u32>> = vec![];
     let mut r = src.to_vec();
     r.reverse();
@@ -454,9 +558,16 @@ where
     let mut r: Vec<u32> = src.iter().copied().skip(1).step_by(2).collect();
     r.extend(src.iter().copied().step_by(2));
     reqs.push(r);
+    let mut r = src.to_vec();
+    let k = r.len();
+    r.swap(k - 2, k - 1);
+    reqs.push(r);
+    let mut r = src.to_vec();
+    r.swap(0, 1);
+    reqs.push(r);
     let bound = if ctx.thorough() && tc.threads == 2 { 3 } else { 2 };
     for req in [reqs[which].clone()] {
-        let label = format!("schedules src={} req={} workers={}", model::order_str(src), model::order_str(&req), tc.threads);
+        let label = format!("schedules src={} req={} workers={}{}", model::order_str(src), model::order_str(&req), tc.threads, if sparse { " sparse" } else { "" });
         let src = src.to_vec();
         let tabs = tabs.clone();
         ctx.group(&label, |ctx| {
